@@ -39,6 +39,13 @@ pub enum ModelParseError {
     #[error("USE_GV is true, but positions for GV is not set")]
     UseGvError,
 
+    #[error("A byte range in [POSITION] lies outside the [DATA] section")]
+    RangeError,
+    #[error("A size computed from the header does not fit in usize")]
+    SizeOverflow,
+    #[error("Malformed tree: {0}")]
+    TreeError(String),
+
     #[error("Failed to parse question: {0}")]
     QuestionParseError(#[from] jlabel_question::ParseError),
 }
@@ -109,11 +116,19 @@ fn parse_data_section(
 ) -> Result<(Model, Vec<StreamModels>), ModelParseError> {
     use nom::{combinator::all_consuming, sequence::terminated};
 
+    // a voice has at least one stream, and NUM_STREAMS counts the entries of STREAM_TYPE
+    if global.stream_type.is_empty() || global.num_streams != global.stream_type.len() {
+        return Err(ModelParseError::StreamNotFound);
+    }
+
     let duration_model = parse_model(
         input,
         position.duration_tree,
         position.duration_pdf,
-        global.num_states * 2,
+        global
+            .num_states
+            .checked_mul(2)
+            .ok_or(ModelParseError::SizeOverflow)?,
     )?;
 
     let stream_models: Vec<StreamModels> = global
@@ -133,8 +148,12 @@ fn parse_data_section(
                 input,
                 pos.stream_tree,
                 pos.stream_pdf,
-                stream_data.vector_length * stream_data.num_windows * 2
-                    + (stream_data.is_msd as usize),
+                stream_data
+                    .vector_length
+                    .checked_mul(stream_data.num_windows)
+                    .and_then(|n| n.checked_mul(2))
+                    .and_then(|n| n.checked_add(stream_data.is_msd as usize))
+                    .ok_or(ModelParseError::SizeOverflow)?,
             )?;
 
             let gv_model = if stream_data.use_gv {
@@ -142,7 +161,10 @@ fn parse_data_section(
                     input,
                     pos.gv_tree.ok_or(ModelParseError::UseGvError)?,
                     pos.gv_pdf.ok_or(ModelParseError::UseGvError)?,
-                    stream_data.vector_length * 2,
+                    stream_data
+                        .vector_length
+                        .checked_mul(2)
+                        .ok_or(ModelParseError::SizeOverflow)?,
                 )?;
                 Some(gv_model)
             } else {
@@ -155,7 +177,7 @@ fn parse_data_section(
                 .map(|win| {
                     Ok(
                         all_consuming(terminated(WindowParser::parse_window_row, ParseTarget::sp))
-                            .parse(&input[win.0..=win.1])?
+                            .parse(slice_inclusive(input, *win)?)?
                             .1,
                     )
                 })
@@ -173,17 +195,27 @@ fn parse_data_section(
     Ok((duration_model, stream_models))
 }
 
+/// `input[range.0..=range.1]`, or an error when the range does not lie inside `input`.
+fn slice_inclusive(input: &[u8], range: (usize, usize)) -> Result<&[u8], ModelParseError> {
+    range
+        .1
+        .checked_add(1)
+        .and_then(|end| input.get(range.0..end))
+        .ok_or(ModelParseError::RangeError)
+}
+
 fn parse_all<'a, F>(
     f: F,
     range: (usize, usize),
-) -> impl FnOnce(&'a [u8]) -> IResult<&'a [u8], F::Output, F::Error>
+) -> impl FnOnce(&'a [u8]) -> Result<(&'a [u8], F::Output), ModelParseError>
 where
     F: Parser<&'a [u8]>,
     F::Error: ParseError<&'a [u8]> + ContextError<&'a [u8]>,
+    ModelParseError: From<nom::Err<F::Error>>,
 {
     use nom::combinator::all_consuming;
 
-    move |input: &'a [u8]| all_consuming(f).parse(&input[range.0..range.1 + 1])
+    move |input: &'a [u8]| Ok(all_consuming(f).parse(slice_inclusive(input, range)?)?)
 }
 
 #[cfg(test)]
